@@ -13,7 +13,7 @@ transcribed: its *specification* is the shared verified reference `Iso.allIsosP`
 Python values are modelled by `Val` (None, int, bool, str, list of str); a link-side value is a
 `TVal` (plain value, `Choice`, `NotDefinedOrNot`).  Dictionaries are association lists with
 distinct keys (`lookup` = `dict.get`).  Exceptions are modelled by `Option` (`none` = the code
-raises): `ValueError` of `_interpret_order`, `TypeError` of a non-numeric order in a non-edge,
+raises): `ValueError` of `_interpret_order`, `ValueError` of an invalid order in a non-edge,
 `KeyError` of a pattern atom that is not a link node.
 
 Geometry-derived parameters are kept symbolic (`Param.eff name keys format`, keys mapped on the
@@ -253,28 +253,29 @@ def orderOfTVal : TVal → Order
 /-- the `order` attribute of a link node, if it has one -/
 def LNode.order (n : LNode) : Option Order := (n.attrs.lookup "order").map orderOfTVal
 
-/-- `to_link.get('order', 0)` as an integer; `none` = not a number (the addition raises) -/
-def toOrder (t : TAttrs) : Option Int :=
-  match t.lookup "order" with
-  | none => some 0
-  | some (.plain (.int n)) => some n
-  | some _ => none
+/-- `from_link.get('order', 0)`: the order of the anchor atom of a non-edge -/
+def anchorOrder (l : Link) (k : Int) : Order := ((l.node? k).bind LNode.order).getD (.num 0)
 
-/-- one non-edge: `some false` = a forbidden neighbour exists -/
+/-- `to_link.get('order', 0)`: the order of the partner atom of a non-edge -/
+def partnerOrder (t : TAttrs) : Order := ((t.lookup "order").map orderOfTVal).getD (.num 0)
+
+/-- one non-edge: `some false` = a forbidden neighbour exists (a neighbour of the anchor whose
+residue satisfies `match_order(anchor order, anchor resid, partner order, neighbour resid)` and
+whose attributes match); `none` = `match_order` raises (evaluated for the first neighbour) -/
 def nonEdgeOk (m : Mol) (l : Link) (mp : Map) (ne : Int × TAttrs) : Option Bool :=
   if !(l.keys.contains ne.1) then some true
   else
     let fm := Map.toFun mp ne.1
     let nbs := m.neighbors fm
     if nbs.isEmpty then some true
-    else match toOrder ne.2 with
-      | none => none
-      | some d =>
+    else match interpretOrder (anchorOrder l ne.1), interpretOrder (partnerOrder ne.2) with
+      | some _, some _ =>
         some (!(nbs.any fun nb =>
-          m.resid nb == m.resid fm + d &&
+          matchOrder (anchorOrder l ne.1) (m.resid fm) (partnerOrder ne.2) (m.resid nb) == some true &&
             (match m.node? nb with
              | some n => atomsMatch n ne.2
              | none => false)))
+      | _, _ => none
 
 /-- `_is_valid_non_edges` -/
 def validNonEdges (m : Mol) (l : Link) (mp : Map) : List (Int × TAttrs) → Option Bool
